@@ -9,7 +9,11 @@ Model
 -----
 Table(packages=[Package], utf8=True, pool_prefix=[...])
 Package(id, name, types=[Type], type_utf8, key_utf8)
-Type(name, entries=[Entry | None, ...], enc='dense'|'off16'|'sparse' | {Cfg: enc}, trim=False)
+Type(name, entries=[Entry | None, ...], enc='dense'|'off16'|'sparse' | {Cfg: enc}, trim=False, layout='index')
+      layout: order in which the entry structures are placed inside the entry area of every type chunk:
+      'index' (what aapt writes), 'reversed', 'rotated' (first present entry last).  The offset array keeps its
+      meaning (slot i -> offset of entry i), so all layouts describe the same table (ResourceTypes.h only requires
+      each offset to point inside the chunk).
       entries == []  ->  the name only occupies a slot in the type string pool (type id gap, no typeSpec chunk)
       a None entry   ->  hole in every configuration (NO_ENTRY / absent from the sparse index)
 Entry(key, flags (FLAG_PUBLIC | FLAG_WEAK), values={Cfg: Plain(v) | Compact(v) | Complex(parent, [(name, v), ...])})
@@ -261,10 +265,10 @@ class Entry:
 
 
 class Type:
-    __slots__ = ("name", "entries", "enc", "trim")
+    __slots__ = ("name", "entries", "enc", "trim", "layout")
 
-    def __init__(self, name, entries=(), enc="dense", trim=False):
-        self.name, self.entries, self.enc, self.trim = name, list(entries), enc, trim
+    def __init__(self, name, entries=(), enc="dense", trim=False, layout="index"):
+        self.name, self.entries, self.enc, self.trim, self.layout = name, list(entries), enc, trim, layout
 
     def configs(self):
         """Configurations in first-appearance order."""
@@ -375,19 +379,23 @@ def _entry_bytes(ev, flags, key_idx, pool):
     return b
 
 
-def type_chunk(type_id, cfg, enc, slots):
-    """slots: list (index = entry index) of entry bytes or None (hole)."""
+def type_chunk(type_id, cfg, enc, slots, layout="index"):
+    """slots: list (index = entry index) of entry bytes or None (hole); layout: placement order in the entry area."""
     cfgb = cfg.pack()
     header_size = 8 + 12 + len(cfgb)
     blob = bytearray()
-    offsets = []
-    for s in slots:
-        if s is None:
-            offsets.append(None)
-        else:
-            assert len(blob) % 4 == 0
-            offsets.append(len(blob))
-            blob += s
+    offsets = [None] * len(slots)
+    order = [i for i, s in enumerate(slots) if s is not None]
+    if layout == "reversed":
+        order.reverse()
+    elif layout == "rotated":
+        order = order[1:] + order[:1]
+    elif layout != "index":
+        raise ValueError(layout)
+    for i in order:
+        assert len(blob) % 4 == 0
+        offsets[i] = len(blob)
+        blob += slots[i]
     if enc == "dense":
         flags = 0
         arr = b"".join(struct.pack("<I", NO_ENTRY if o is None else o) for o in offsets)
@@ -447,7 +455,7 @@ def package_chunk(pkg, pool):
             if t.trim:
                 while slots and slots[-1] is None:
                     slots.pop()
-            chunks.append(type_chunk(type_id, cfg, t.enc_of(cfg), slots))
+            chunks.append(type_chunk(type_id, cfg, t.enc_of(cfg), slots, t.layout))
     tsp = string_pool(type_names, pkg.type_utf8)
     ksp = string_pool(keys.strings, pkg.key_utf8)
     name16 = pkg.name.encode("utf-16-le")
